@@ -399,6 +399,29 @@ def run(ctx):
                                                  dict(kind="accuracy", measure=name, case=ser(c), observed=r[name], expected="<= %g" % lim[name])))
         if not r["shape_ok"]:
             bad.setdefault("oracle:shape", ("nufft output shape wrong", dict(kind="accuracy", measure="shape", case=ser(c))))
+        # the same values handed over in another memory layout must give the same transform (forward: the image; adjoint: the samples)
+        if _ % 2 == 0:
+            from vlib import layouts
+            kwn = dict(oversamp=c["oversamp"], width=c["width"])
+            try:
+                y0 = np.asarray(sp.nufft(c["x"], c["coord"], **kwn))
+                a0 = np.asarray(sp.nufft_adjoint(c["y"], c["coord"], oshape=c["bat"] + c["shape"], **kwn))
+                for tag, xv in layouts.variants(c["x"], rng, k=1):
+                    yv = np.asarray(sp.nufft(xv, c["coord"], **kwn))
+                    ctx.count("layout:nufft:" + tag, key=str(_) + tag, nontrivial=True)
+                    if yv.shape != y0.shape or not np.allclose(yv, y0, rtol=1e-10, atol=1e-12 * (1 + np.abs(y0).max())):
+                        bad.setdefault("oracle:layout:nufft", ("nufft of the same image stored in layout %s differs from the C-contiguous result (relative %.3g)"
+                                                               % (tag, rel(yv, y0) if yv.shape == y0.shape else -1),
+                                                               dict(kind="accuracy", measure="layout", layout=tag, case=ser(c))))
+                for tag, yv in layouts.variants(c["y"], rng, k=1):
+                    av = np.asarray(sp.nufft_adjoint(yv, c["coord"], oshape=c["bat"] + c["shape"], **kwn))
+                    ctx.count("layout:nufft_adjoint:" + tag, key=str(_) + tag, nontrivial=True)
+                    if av.shape != a0.shape or not np.allclose(av, a0, rtol=1e-10, atol=1e-12 * (1 + np.abs(a0).max())):
+                        bad.setdefault("oracle:layout:nufft_adjoint", ("nufft_adjoint of the same samples stored in layout %s differs from the C-contiguous result (relative %.3g)"
+                                                                       % (tag, rel(av, a0) if av.shape == a0.shape else -1),
+                                                                       dict(kind="accuracy", measure="layout", layout=tag, case=ser(c))))
+            except Exception as e:
+                bad.setdefault("exception:layout", ("nufft raised %r on a non-contiguous input" % e, {"kind": "impl-exception", "case": ser(c), "error": repr(e)}))
     ntoe = ctx.n(40, 600)
     for _ in range(ntoe):
         c = toeplitz_case(sp, rng, nrng)
@@ -451,6 +474,23 @@ def run(ctx):
 def replay(obj):
     sp = core.import_sigpy()
     kind = obj.get("kind")
+    if kind == "accuracy" and obj.get("measure") == "layout":
+        import random
+        from vlib import layouts
+        c = unser(obj["case"])
+        kwn = dict(oversamp=c["oversamp"], width=c["width"])
+        y0 = np.asarray(sp.nufft(c["x"], c["coord"], **kwn))
+        a0 = np.asarray(sp.nufft_adjoint(c["y"], c["coord"], oshape=c["bat"] + c["shape"], **kwn))
+        ok = True
+        for tag, xv in layouts.variants(c["x"], random.Random(0), k=9):
+            yv = np.asarray(sp.nufft(xv, c["coord"], **kwn))
+            good = yv.shape == y0.shape and np.allclose(yv, y0, rtol=1e-10, atol=1e-12 * (1 + np.abs(y0).max()))
+            print("nufft layout", tag, "agrees with C layout:", good); ok = ok and good
+        for tag, yv in layouts.variants(c["y"], random.Random(0), k=9):
+            av = np.asarray(sp.nufft_adjoint(yv, c["coord"], oshape=c["bat"] + c["shape"], **kwn))
+            good = av.shape == a0.shape and np.allclose(av, a0, rtol=1e-10, atol=1e-12 * (1 + np.abs(a0).max()))
+            print("nufft_adjoint layout", tag, "agrees with C layout:", good); ok = ok and good
+        return 0 if ok else 1
     if kind == "accuracy":
         c = unser(obj["case"])
         r = eval_accuracy(sp, c)
